@@ -198,3 +198,46 @@ func init() {
 		Outside: []string{"String()/FastLog() renderers of the protocol views and table entries", "Duration/Time/Sprintf/Stringer content", "IPv6 addresses with more than one non-constant group at a time"},
 	})
 }
+
+func init() {
+	register(&Prop{
+		ID:        "C03",
+		Technique: "bounded symbolic execution of the encoders followed by the library decoders and an independent reference extraction; round-trip equalities asserted by SMT (symbolic payload lengths via layered arrays, Skolem index for payload bytes)",
+		Jobs: func(tier string) []Job {
+			r := []string{"done"}
+			pm := Config{MaxLoop: 1100, MaxWall: 900, PermuteMaps: true, Stubs: map[string]bool{}}
+			jobs := []Job{
+				{Pkg: "root", Func: "VerifC03Ether", Cfg: cfg(64, 600), Reach: r},
+				{Pkg: "root", Func: "VerifC03IP4", Cfg: cfg(64, 600), Reach: r},
+				{Pkg: "root", Func: "VerifC03IP6", Cfg: cfg(64, 600), Reach: r},
+				{Pkg: "root", Func: "VerifC03UDP", Cfg: cfg(64, 600), Reach: r},
+				{Pkg: "root", Func: "VerifC03ARP", Cfg: cfg(64, 600), Reach: r},
+				{Pkg: "root", Func: "VerifC03ICMPEcho", Cfg: cfg(64, 600), Reach: r},
+				{Pkg: "root", Func: "VerifC03NDP", Cfg: cfg(64, 600), Reach: r},
+				{Pkg: "root", Func: "VerifC03DNSQuery", Cfg: cfg(64, 600), Reach: r},
+				{Pkg: "root", Func: "VerifC03Compose", Args: []int64{0}, Cfg: cfg(64, 600), Reach: r},
+				{Pkg: "root", Func: "VerifC03Compose", Args: []int64{1}, Cfg: cfg(64, 600), Reach: r},
+				{Pkg: "root", Func: "VerifC03DHCP4", Args: []int64{1, 1, 0}, Cfg: pm, Reach: r},
+				{Pkg: "root", Func: "VerifC03DHCP4", Args: []int64{2, 2, 1}, Cfg: pm, Reach: r},
+			}
+			if tier == "thorough" {
+				jobs = append(jobs, Job{Pkg: "root", Func: "VerifC03DHCP4", Args: []int64{2, 2, 0}, Cfg: pm, Reach: r})
+			}
+			return jobs
+		},
+		Bounds: func(tier string) map[string]string {
+			d := "<= 1 arbitrary option (code, <= 4 value bytes) with an order list of <= 1 code; plus the {subnet mask, router} set with every order list of <= 2 codes"
+			if tier == "thorough" {
+				d += "; plus <= 2 arbitrary options with order lists of <= 2 codes"
+			}
+			return map[string]string{
+				"Ethernet/IPv4/IPv6/UDP/ICMP echo": "all field values; payload length symbolic 0..MTU-ish (1500/1480/1460/1472/1400) with arbitrary contents; buffer capacity symbolic from the documented minimum to EthMaxSize, arbitrary old contents",
+				"ARP, NDP NA/NS, DNS query":         "all field values (DNS encoded name 0..8 arbitrary bytes)",
+				"composition":                       "Ether/IPv4/UDP and Ether/IPv6/UDP with every port pair and payload 0..64 bytes, classified by the real Parse",
+				"DHCPv4":                            d + "; all map iteration orders (<= 3 entries)",
+			}
+		},
+		Assumptions: []string{"reference extraction at RFC positions is written in the harness (shared helpers with C02)", "DHCP options larger than the 1024-byte temporary buffer are outside the documented limit", "stubs as in C01"},
+		Outside:     []string{"RouterAdvertisement marshal (C07/C14)", "DHCP option maps with more than 2 arbitrary entries", "payloads larger than the stated lengths"},
+	})
+}
